@@ -17,6 +17,7 @@ import (
 	"oras.land/oras-go/v2/registry"
 	"oras.land/oras-go/v2/registry/remote"
 	"verif.local/engine/driver"
+	"verif.local/engine/explore"
 	"verif.local/engine/vs"
 )
 
@@ -50,7 +51,19 @@ func universe() *DAG {
 	b1 := d.Blob("B1", MTConfig, "{}")
 	b2 := d.Blob("B2", MTLayer, "abcd")
 	m1 := d.Manifest("M1", b1, []int{b2}, ManifestOpt{Subject: -1})
-	d.Manifest("M2", b1, nil, ManifestOpt{Subject: m1, ArtifactType: "application/vnd.test.sig", Annotations: map[string]string{"k": "v"}})
+	m2 := d.Manifest("M2", b1, nil, ManifestOpt{Subject: m1, ArtifactType: "application/vnd.test.sig", Annotations: map[string]string{"k": "v"}})
+	// a second referrer of M1 with another artifact type that sorts BEFORE M2 in the registry's
+	// (digest-ordered) listing, so that a client-side filter meets a page without a match first
+	for i := 0; ; i++ {
+		probe := &DAG{}
+		pb := probe.Blob("B1", MTConfig, "{}")
+		pm := probe.Manifest("M1", pb, []int{probe.Blob("B2", MTLayer, "abcd")}, ManifestOpt{Subject: -1})
+		id := probe.Manifest("M3", pb, nil, ManifestOpt{Subject: pm, ArtifactType: "application/vnd.test.other", Annotations: map[string]string{"k": fmt.Sprint("w", i)}})
+		if probe.Nodes[id].Desc.Digest < d.Nodes[m2].Desc.Digest {
+			d.Manifest("M3", b1, nil, ManifestOpt{Subject: m1, ArtifactType: "application/vnd.test.other", Annotations: map[string]string{"k": fmt.Sprint("w", i)}})
+			break
+		}
+	}
 	return d
 }
 
@@ -64,7 +77,7 @@ func (o mop) str(d *DAG) string { return fmt.Sprintf("%s(%s,%s)", o.kind, d.Node
 
 func mops() []mop {
 	return []mop{
-		{"push", 0, ""}, {"push", 1, ""}, {"push", 2, ""}, {"push", 3, ""}, {"pushref", 2, "t1"},
+		{"push", 0, ""}, {"push", 1, ""}, {"push", 2, ""}, {"push", 3, ""}, {"push", 4, ""}, {"pushref", 2, "t1"},
 		{"tag", 2, "t2"}, {"tag", 3, "t1"}, {"delete", 2, ""}, {"delete", 0, ""}, {"delete", 3, ""}, {"mount", 1, "other/src"},
 	}
 }
@@ -90,7 +103,7 @@ func profiles(all bool) []Profile {
 	for api := 0; api < 2; api++ {
 		for dh := 0; dh < 3; dh++ {
 			if !all {
-				out = append(out, Profile{ReferrersAPI: api == 1, DigestHeader: dh, OCISubject: api == 1, PageSize: 1, LinkForm: dh})
+				out = append(out, Profile{ReferrersAPI: api == 1, DigestHeader: dh, OCISubject: api == 1, PageSize: 1, LinkForm: dh, FilterApplied: dh})
 				continue
 			}
 			for bits := 0; bits < 32; bits++ {
@@ -402,10 +415,15 @@ func battery(ctx context.Context, d *DAG, repo *remote.Repository, g *Registry, 
 		}
 	}
 	// Predecessors / Referrers of M1: exactly the stored manifests naming it
-	var wantRefs []string
+	var wantRefs, wantSig []string
 	if st.mans[3] {
 		wantRefs = append(wantRefs, d.Nodes[3].Desc.Digest.String()+"|application/vnd.test.sig|v")
+		wantSig = append(wantSig, d.Nodes[3].Desc.Digest.String()+"|application/vnd.test.sig|v")
 	}
+	if st.mans[4] {
+		wantRefs = append(wantRefs, d.Nodes[4].Desc.Digest.String()+"|application/vnd.test.other|"+d.Nodes[4].Annotations["k"])
+	}
+	sort.Strings(wantRefs)
 	render := func(ds []ocispec.Descriptor) []string {
 		var out []string
 		for _, x := range ds {
@@ -427,7 +445,7 @@ func battery(ctx context.Context, d *DAG, repo *remote.Repository, g *Registry, 
 		if err != nil {
 			return "Referrers failed on a fault-free exchange", err.Error()
 		}
-		w := wantRefs
+		w := wantSig
 		if at != "application/vnd.test.sig" {
 			w = nil
 		}
@@ -484,7 +502,7 @@ func seekJobs(th bool) []driver.Job {
 		sh := sh
 		name := fmt.Sprintf("seek/depth%d/shard%d.%d", depth, sh, nsh)
 		out = append(out, driver.Job{Name: name, Run: func(c *driver.Ctx) {
-			c.Explore(driver.Scenario{Name: name, Sequential: true, Shard: sh, NShard: nsh,
+			c.Explore(driver.Scenario{Name: name, Sequential: true, Shard: sh, NShard: nsh, Bounds: explore.Bounds{Fault: 1},
 				Make: func() (func(), func(*vs.Result) *driver.Fail) { return seekRun(c, depth) }})
 		}})
 	}
@@ -512,6 +530,19 @@ func seekRun(c *driver.Ctx, depth int) (func(), func(*vs.Result) *driver.Fail) {
 		}
 		ref := bytes.NewReader(data)
 		sizes := []int{0, 1, 2, 5}
+		// at most one range request of the sequence is answered 503 (fault bound F<=1): a Seek that
+		// failed must leave the reader where it was, like a failed Seek on any io.Seeker
+		faulted := false
+		g.Hook = func(rec *ReqRecord) (int, bool) {
+			if rec.Header.Get("Range") == "" || faulted {
+				return 0, false
+			}
+			if vs.Choose(2, vs.KFault, "range-request") == 1 {
+				faulted = true
+				return 503, true
+			}
+			return 0, false
+		}
 		for step := 0; step < depth; step++ {
 			k := vs.Choose(len(sizes)+21, vs.KInput, "rs")
 			if k < len(sizes) {
@@ -527,7 +558,17 @@ func seekRun(c *driver.Ctx, depth int) (func(), func(*vs.Result) *driver.Fail) {
 			}
 			k -= len(sizes)
 			off, whence := int64(k%7-1), k/7
+			was := faulted
 			o1, e1 := rs.Seek(off, whence)
+			if faulted && !was {
+				// this Seek's range request was refused: it must report an error and not move
+				hist = append(hist, fmt.Sprintf("Seek(%d,%d)=%d,%v [range request answered 503]", off, whence, o1, e1))
+				if e1 == nil {
+					fail = &driver.Fail{Sig: "Seek reported success although its range request failed", Detail: fmt.Sprint(hist)}
+					return
+				}
+				continue
+			}
 			o2, e2 := ref.Seek(off, whence)
 			hist = append(hist, fmt.Sprintf("Seek(%d,%d)=%d,%v", off, whence, o1, e1))
 			if (e1 == nil) != (e2 == nil) || e1 == nil && o1 != o2 {
